@@ -34,7 +34,13 @@ chk.extra['rule'] = ('systems of 1-3 molecules with 1-2 chains each (shared inpu
                      'rounding ties at 8 decimals) go through the two writers and through write_gmx_topology with varying '
                      'itp_paths (non-trivial: >= 2 blocks / both files); generated all_contacts lists go through '
                      '_write_contacts and the written file through read_go_map (non-trivial: >= 1 selected contact); '
-                     'distinct = distinct protocol line')
+                     'every main case is compared with the model of the WHOLE state (complete interaction table and both '
+                     'parameter tables after the run); 40% of them carry interactions before the pipeline runs (virtual_sitesn '
+                     'built from backbone / side-chain beads, other virtual-site and bonded sections, exclusions between backbone '
+                     'beads incl. the pair a Go contact excludes, empty sections), parameter tables with entries, real particles '
+                     'named like the Go sites, mass/charge attributes, and boundary values (resid <= 0, chain None, _old_resid '
+                     'None/0, molecule without backbone bead, cut-offs equal/zero/negative, res_dist 0), counted as pre:* / '
+                     'boundary:*; distinct = distinct protocol line')
 chk.lean(['VermouthProps.C18', 'VermouthProps.C18_Reuse', 'VermouthProps.C18_Files', 'VermouthProps.C18_MapWrite',
           'VermouthProps.C18_Sigma', 'VermouthProps.C18_Order', 'VermouthProps.C18_Inter'], 'driver_c18')
 
@@ -63,6 +69,10 @@ chk.trusted.append('harness/c18.py: system builder, canonicaliser of nodes/inter
 chk.trusted.append('harness/c18.py (extension): fractions.Fraction(x) as the exact value of a Python number; the independent '
                    'parameter-file parser and its block/group bookkeeping; scipy euclidean(...)*10 re-evaluated for the distance '
                    'column of the written contact map; str() of mass/charge')
+chk.trusted.append('harness/c18.py (follow-up): rendering of (parameters, meta) of an interaction as one string; identity (`is`) '
+                   'of the entries that existed before; residue member orders taken from the sets of the real collect_residues '
+                   '(spot-checked against make_residue_graph); lean/Drivers/C18.lean applies chainTag / oldSentinel to chain '
+                   'and _old_resid values that are None')
 KNOWN_IDS = {k['id'] for k in chk.known if k.get('status') == 'known'}
 FIXED_IDS = {k['id'] for k in chk.known if k.get('status') == 'fixed'}
 
@@ -491,17 +501,21 @@ def oracle(spec, obs):
     for pair in expected:
         if got.get(pair, 0) != 1:
             errs.append('residues %s: %d Go potentials, contact is symmetric, separated and inside the window'
-                        % (sorted(pair), got.get(pair, 0)))
+                        % (sorted(pair, key=repr), got.get(pair, 0)))
             if clash:
                 finding = finding or 'F-C18-2'
     for pair in got:
         if pair not in expected:
             errs.append('residues %s: Go potential although the contact is not symmetric/separated/inside the window'
-                        % (sorted(pair),))
+                        % (sorted(pair, key=repr),))
+    # "the two backbone particles are excluded from each other": an exclusion the molecule carried before counts; the
+    # pipeline adds exclusions for Go pairs only, at most one per pair
     want_excl = sorted(sorted(v[0]) for v in expected.values())
     got_excl = sorted(sorted(it.atoms) for it in obs['excl'])
-    if want_excl != got_excl:
-        errs.append('exclusions %r, expected backbone pairs %r' % (got_excl, want_excl))
+    had_excl = [sorted(it.atoms) for name, its in obs['pre_inter'] if name == 'exclusions' for it in its]
+    if any(p_ not in want_excl for p_ in got_excl) or any(got_excl.count(p_) > 1 for p_ in want_excl) or \
+            any(p_ not in got_excl and p_ not in had_excl for p_ in want_excl):
+        errs.append('exclusions added %r (before: %r), expected backbone pairs %r' % (got_excl, had_excl, want_excl))
     return errs, finding, flags
 
 
@@ -1132,8 +1146,12 @@ def gen_interactions(rng, atoms, dummies):
         n = {'bonds': 2, 'constraints': 2, 'pairs': 2, 'exclusions': 2, 'angles': 3, 'dihedrals': 4, 'virtual_sites2': 3,
              'virtual_sites3': 4, 'position_restraints': 1}.get(name, rng.choice([2, 3]))
         if name == 'virtual_sitesn' and bbs and scs:
-            # an existing bead declared a site constructed from a backbone bead
-            add(name, [rng.choice(scs), rng.choice(bbs)], ['1'], {})
+            if rng.random() < 0.7:
+                # an existing bead declared a site constructed from a backbone bead
+                add(name, [rng.choice(scs), rng.choice(bbs)], ['1'], {})
+            else:
+                # a backbone bead that is itself a constructed site
+                add(name, [rng.choice(bbs)] + rng.sample(scs, min(len(scs), 2)), ['1'], {})
             continue
         pool = bbs if (name == 'exclusions' and len(bbs) >= 2 and rng.random() < 0.8) else allk
         if len(pool) < n:
